@@ -307,10 +307,11 @@ class PeerBase:
             return hk[name]
         return self.script.get('hostkey_default')
 
-    def dialogue(self, c):
+    def dialogue(self, c, kexinit_sent=False):
         """Everything after the identification exchange, server side of an SSH-2 key exchange."""
         s = self.script
-        self.send(c, 'kexinit', self.kexinit_packet())
+        if not kexinit_sent:
+            self.send(c, 'kexinit', self.kexinit_packet())
         while True:
             t, payload = self.read_packet(c)
             if t == wire.MSG_KEXINIT:
@@ -366,6 +367,10 @@ class PeerBase:
         """Server role on an established connection."""
         try:
             self.send(c, 'banner', self.banner_blob())
+            eager = bool(self.script.get('eager')) and self.script.get('proto', 2) != 1
+            if eager:
+                # say everything at once: the KEXINIT follows the banner without waiting for the other side's identification
+                self.send(c, 'kexinit', self.kexinit_packet())
             line = self.read_line(c)
             c.client_banner = line
             self.log('client-banner', c.idx, line=line.decode('latin-1'))
@@ -379,7 +384,7 @@ class PeerBase:
             if proto == 1:
                 self.send(c, 'vdiff', b'Protocol major versions differ.\n')
                 return
-            self.dialogue(c)
+            self.dialogue(c, kexinit_sent=eager)
         except _Abort:
             pass
         except Exception as e:  # harness bug: make it visible
